@@ -543,6 +543,12 @@ class World:
         if self.cur is not None and self.cur.get('record_cmds'):
             self.cur['cmds'].append(c)
         p = self.plan or {}
+        if p.get('kind') == 'thirdparty' and \
+                p.get('cmd') == self.ncmd - 1 and not self.fired:
+            # a third party acts right before this git command
+            self.fired = True
+            self._count_fault('thirdparty:' + p['action']['do'])
+            self._third_party(p['action'])
         if p.get('kind') in ('giterr', 'githang') and \
                 p.get('n') == self.ncmd - 1:
             # the sub-process itself fails or hangs, printing the remote URL
